@@ -235,6 +235,7 @@ class Env:
         self.fired = []
         self.kinds = {}
         self.box = box  # optional small value box (C12): values drawn from tape
+        self.nobj = 0  # object labels are per operation (twins may have diverged earlier under an override)
         return self
 
     def current(self):
